@@ -90,6 +90,12 @@ class Grammar(object):
         self._extract_productions()
         self._build_tables()
 
+    def nonterminals(self):
+        nts = getattr(self, '_nts', None)
+        if nts is None:
+            nts = self._nts = set(p.name for p in self.productions)
+        return nts
+
     # -- discovery --------------------------------------------------------------------------
     def _find_grammar_class(self):
         """Most derived class that owns p_* methods."""
